@@ -14,7 +14,8 @@ def handlers : List (List Sexp → Option Sexp) :=
     Driver.threadsHandle,
     Driver.regexHandle,
     Driver.prHandle,
-    Driver.settingsHandle ]
+    Driver.settingsHandle,
+    Driver.wordPathsHandle ]
 
 def dispatch (line : String) : String :=
   match Sexp.parseAll line with
